@@ -22,7 +22,7 @@ def run(ctx: Ctx) -> list[Ob]:
     # the refusals are only as good as the predicates they consult
     obs += r7d.r7d(ctx)
     obs += r14.product_input_order(ctx)
-    obs += r8.scope_membership(ctx, "cirkit.backend.torch.queries.IntegrateQuery.scopes_to_mask", "out-of-scope:membership")
+    obs += r8.scope_membership(ctx, "cirkit.backend.torch.queries.IntegrateQuery.scopes_to_mask", "out-of-scope:membership") + r8.scope_membership(ctx, "cirkit.backend.torch.queries.IntegrateQuery.__call__", "out-of-scope:mask-tensor", within="isinstance(integrate_vars, Tensor)")
     return obs
 
 
@@ -40,9 +40,9 @@ SPEC = PropSpec(
         "guards consult say what they must -- is_smooth / is_decomposable quantify over every sum input / every unordered pair of "
         "product inputs, and _are_compatible refuses a common scope that either side factorizes in more than one way (otherwise "
         "integrate / multiply accept operands they have to refuse)."
-        " R14g: the product of two product layers pairs the inputs by scope rank and lists them in the first layer's declared order (products stay compatible with both operands only if the pairing is by scope). R8m: the refusal of variables outside the scope (IntegrateQuery.scopes_to_mask) is a membership test on the circuit's scope as a set, not a bound on the largest id -- ids in a gap of the scope are invalid too."
+        " R14g: the product of two product layers pairs the inputs by scope rank and lists them in the first layer's declared order (products stay compatible with both operands only if the pairing is by scope). R8m: the refusal of variables outside the scope (IntegrateQuery.scopes_to_mask) is a membership test on the circuit's scope as a set, not a bound on the largest id -- ids in a gap of the scope are invalid too; the same holds for the mask-tensor path of IntegrateQuery.__call__ (a True in the column of an id that is not in the scope is refused, not ignored)."
     ),
     not_decided="the 'results keep the promised structure' clause (structural flags of generated circuits are run-time facts) -- not claimed.",
     run=run,
-    floors={"R14g": 1, "R8m": 1, "R8": 28, "R7d": 5},
+    floors={"R14g": 1, "R8m": 2, "R8": 28, "R7d": 5},
 )
